@@ -10,7 +10,7 @@
              containers that are open; a container pushes its own index, `End j` must find j on
              top of the stack and pops it, everything else is skipped, the stack must be empty at
              the end.  (An inductive grammar, [closed], is given as well; the proofs file shows
-             closed 0 t -> tape_wf t and uses the grammar as the loop invariant's "closed part".)
+             tape_wf t <-> closed 0 t and uses the grammar as the loop invariant's "closed part".)
      (nz)    no container carries end = 0 and no End carries index 0.
 
    tape_wfb is the boolean checker; TextTapeWfProofs.tape_wfb_spec : tape_wfb t = true <-> tape_wf t. *)
